@@ -339,8 +339,12 @@ def run(ctx, only_cases=None):
         ctx.count(case_repr=repr(case) + " -> " + (json.dumps(v, default=repr) if k == "ok" else repr(v)),
                   nontrivial_key=(str(version), cfgv, kindname, gen.shape(params), type(rpcid).__name__ + str(bool(rpcid))),
                   kind=kindname)
-    if J.loads("") is not None:
-        ctx.violate({"case": 'loads("")'}, 'loads("") is not None', key="loads-empty")
+    try:
+        empty = J.loads("")
+    except Exception as ex:  # the empty text (a notification's reply) must be accepted and give None
+        empty = ex
+    if empty is not None:
+        ctx.violate({"case": 'loads("")'}, 'loads("") is %r, not None' % (empty,), key="loads-empty")
     if only_cases is None:
         fault_cases(ctx, J, cfg_objs, lines, impl_out)
     outs = ctx.lean(lines)
@@ -454,8 +458,12 @@ def replay(payload):
             return 1
         return 0
     if c.get("case") == 'loads("")':
-        print('loads("") ->', repr(J.loads("")))
-        return 1 if J.loads("") is not None else 0
+        try:
+            empty = J.loads("")
+        except Exception as ex:
+            empty = ex
+        print('loads("") ->', repr(empty))
+        return 1 if empty is not None else 0
     case = eval(c["case"])  # the tuple repr written by run()
     cfg_objs = {cc: impl.jsonrpclib.config.Config(version=cc[0], use_jsonclass=cc[1]) for cc in CFGS}
     (k, v), hits = judge_case(J, cfg_objs, case, set())
